@@ -46,6 +46,14 @@ def c01(run, scratch):
     _judge_rows(run, trows, scratch, lambda c, row: 'DecodesToSource' in c or c == 'AcceptedWhenLegal', 'text')
     accepted = {(x[0], tuple(x[1])) for x in rows if x[3] == 'ok'} | {(x[0], tuple(x[1])) for x in trows if x[3] == 'ok'}
     run.coverage['distinct_nontrivial'] = len(accepted)
+    if tier == 'thorough':
+        # the complete immediate range of every I/S/B/U/J mnemonic through the real encoders, 8 x 4 register pairs
+        nfull = enc.full_range_validate(run, scratch, enc.BASE32, [0, 1, 2, 8, 15, 16, 21, 31], [0, 10, 21, 31],
+                                        lambda c, row: 'DecodesToSource' in c)
+        run.coverage['full_range_rows'] = nfull
+        run.coverage['traces_validated_against_impl'] += nfull
+        run.coverage['evaluations'] += nfull
+        run.coverage['distinct_nontrivial'] += nfull
     run.coverage['rule'] = ('per mnemonic: every operand field swept over its whole range (immediates from below the '
                             'minimum to above the maximum, registers -1..33) with the other fields at 5 context settings, '
                             'all register pairs, seeded random tuples; direct encoder calls and one-instruction-per-line '
